@@ -65,6 +65,8 @@ impl Ctx {
         let preset: Option<(i128, [i128; 6])> = match kind {
             11 => match gc(0, 0) % 5 { 1 => Some((0, [131072, 4194304, 1, 4, 4096, 0])), 3 => Some((0, [8192, 262144, 0, 1, 2048, 1])), _ => return },
             12 => Some((2, [65536, 65536, 1, 2, 8192, 0])),
+            // MmapZeroCopyReader: a position over the mapped bytes (no configuration)
+            6 => Some((3, [0, 0, 0, 0, 0, 0])),
             10 => {
                 if gc(10, 0) > 1 { return; }
                 let cap = gc(0, 8).max(1);
@@ -78,7 +80,7 @@ impl Ctx {
             if *self.uni_used.get(&preset_cell).unwrap_or(&0) >= 40 * self.coq_budget / 2400 || data.len() > 5000 || obs.len() > 80 { return; }
             force = true;
         }
-        let (model_kind, chunky) = match kind { 0 => (0, false), 1 => (0, true), 2 => (1, false), 3 => (1, true), 4 => (2, false), 5 => (2, true), 11 => (0, gc(6, 0) != 0), 12 => (2, gc(6, 0) != 0), 10 => (0, false), _ => return };
+        let (model_kind, chunky) = match kind { 0 => (0, false), 1 => (0, true), 2 => (1, false), 3 => (1, true), 4 => (2, false), 5 => (2, true), 11 => (0, gc(6, 0) != 0), 12 => (2, gc(6, 0) != 0), 10 => (0, false), 6 => (3, false), _ => return };
         if (preset.is_none() && data.len() > 200) || obs.len() > 80 { return; }
         // non-default page alignment changes the capacity, the other constructors are not modelled
         if preset.is_none() && (cfg.get(10).copied().unwrap_or(0) > 1 || cfg.get(11).copied().unwrap_or(0) != 0) { return; }
